@@ -321,6 +321,11 @@ func TestCheck(t *testing.T) {
 		}
 		return
 	}
+	if os.Getenv("VERIF_C18_ONLY") == "race" { // development aid
+		racePart(t, c)
+		report.ExitCode = c.Finish()
+		return
+	}
 	depth := c.Pick(5, 6)
 	r := explore.BFS(explore.BFSConfig{Ops: len(alphabet), Depth: depth, Workers: 16, OpName: func(i int) string { return alphabet[i].name }},
 		func(seq []int) explore.StepResult { return run(t, alphabet, seq, "inmem", false, false) })
